@@ -1,10 +1,17 @@
 #!/usr/bin/env python3
-"""keep the third (held-out) round of seeded changes: /tmp/seed3/<id>/<a|b> -> seeded/<id>/<e|f>
+"""keep a held-out round of seeded changes: /tmp/seed<N>/<id>/<a|b> -> seeded/<id>/<e|f> (round 3), <g|h> (round 4)
 
-tools/round3keep.py <first_pass.log> <final.log>     (logs written by the round scripts)"""
+tools/round3keep.py <first_pass.log> <final.log> [round]     (logs written by the round scripts)"""
 import json, os, re, shutil, sys
 
 first_log, final_log = sys.argv[1], sys.argv[2]
+ROUND = int(sys.argv[3]) if len(sys.argv) > 3 else 3
+SUFFIX = {3: {"a": "e", "b": "f"}, 4: {"a": "g", "b": "h"}}[ROUND]
+HEAD = {3: "c879335", 4: "860eafa"}[ROUND]
+ASKED = {
+    3: "asked for changes that a reviewer would wave through (refactorings, speed-ups, tidied helpers) and that need a second call, another entry point, a less common configuration or another numeric type to show",
+    4: "told which fifteen ideas were taken and asked for the least travelled combination of inputs, object kinds, numeric types, registry options and call sequences in the anchored functions and their helpers",
+}[ROUND]
 ROOT = os.path.dirname(os.path.dirname(os.path.abspath(__file__)))
 
 
@@ -27,21 +34,21 @@ first = parse(first_log, "CHECK")
 final = parse(final_log, "FINAL")
 n = 0
 for (prop, x), f in sorted(first.items()):
-    src = f"/tmp/seed3/{prop}/{x}"
-    dst = os.path.join(ROOT, "seeded", prop, {"a": "e", "b": "f"}[x])
+    src = f"/tmp/seed{ROUND}/{prop}/{x}"
+    dst = os.path.join(ROOT, "seeded", prop, SUFFIX[x])
     os.makedirs(dst, exist_ok=True)
-    for fn in ("patch.diff", "demo.py"):
-        shutil.copy(os.path.join(src, fn), os.path.join(dst, fn))
+    for fn in ("patch.diff", "demo.py", "patch_original.diff"):
+        if os.path.exists(os.path.join(src, fn)):
+            shutil.copy(os.path.join(src, fn), os.path.join(dst, fn))
     m = json.load(open(os.path.join(src, "meta.json")))
     fin = final.get((prop, x), {}).get("FINAL", "")
     out = {
         "property": prop,
-        "round": 3,
+        "round": ROUND,
         "breaks": m.get("summary"),
         "needs": m.get("needs"),
         "files": m.get("files"),
-        "author": "independent sub-agent (third round) given only the property text and a scratch worktree of /repo at c879335; asked for changes that a reviewer would wave through (refactorings, "
-        "speed-ups, tidied helpers) and that need a second call, another entry point, a less common configuration or another numeric type to show",
+        "author": f"independent sub-agent (round {ROUND}) given only the property text and a scratch worktree of /repo at {HEAD}; {ASKED}",
         "author_ran": {"tests": m.get("tests"), "demo_unchanged_exit": m.get("demo_unchanged_exit"), "demo_changed_exit": m.get("demo_changed_exit")},
         "verified_by_me": {"how": "tools/seedverify.sh (scratch worktree, demo on unchanged and changed code, full test suite under xdist --dist loadscope; the order-dependent test_numpy.py::test_cross flickers on the unchanged tree too)", "result": f.get("VERIFY", "")},
         "checks_run_first_pass": {"how": "tools/seedrun.sh against the checks as they were BEFORE this round was looked at (held-out)", "result": f.get("CHECK", ""), "caught": "rc=1" in f.get("CHECK", "")},
